@@ -883,6 +883,32 @@ func (c *cenv) call(x *CCall) (cval, error) {
 			return cval{}, fmt.Errorf("u2f needs ints bv64")
 		}
 		return cval{fmt.Sprintf("((_ to_fp_unsigned 11 53) RNE %s)", a[0].s), "FP", nil}, nil
+	case "arrayOf":
+		// arrayOf(s): the backing array of a slice (a reference: fresh(arrayOf(s)) says the slice was made here)
+		a, err := c.args(x, 1)
+		if err != nil {
+			return cval{}, err
+		}
+		if a[0].sort != "Slice" {
+			return cval{}, fmt.Errorf("arrayOf of %s", a[0].sort)
+		}
+		return cval{"(arr " + a[0].s + ")", "Ref", nil}, nil
+	case "toInt":
+		// toInt(x): the Go conversion int(x) of a float64 - the same function symbol the encoding of the
+		// conversion instruction uses (a function of its operand in every integer mode)
+		a, err := c.args(x, 1)
+		if err != nil {
+			return cval{}, err
+		}
+		if a[0].sort != "F64" {
+			return cval{}, fmt.Errorf("toInt of %s", a[0].sort)
+		}
+		fn := "f2i_int"
+		if !e.declared[fn] {
+			e.declared[fn] = true
+			e.decls = append(e.decls, fmt.Sprintf("(declare-fun %s (%s) %s)", fn, e.smtSort("F64"), e.isort()))
+		}
+		return cval{fmt.Sprintf("(%s %s)", fn, a[0].s), "ISort", types.Typ[types.Int]}, nil
 	case "f2i":
 		a, err := c.args(x, 1)
 		if err != nil {
